@@ -106,7 +106,11 @@ type Attr struct {
 	Desc    string      `json:"desc,omitempty"`
 	V       *Validation `json:"v,omitempty"`
 	Default *value.V    `json:"default,omitempty"`
-	Meta    [][]string  `json:"meta,omitempty"` // [key, values…] in declaration order
+	// DefaultFromAlias: Default repeats the default declared on the primitive
+	// alias type this attribute refers to (Type("Priority", Int, func(){ Default(3) }));
+	// it is not written again at the use site.
+	DefaultFromAlias bool       `json:"default_from_alias,omitempty"`
+	Meta             [][]string `json:"meta,omitempty"` // [key, values…] in declaration order
 	// View selects the view used to render a nested result type (Meta "view" / View DSL inside Attribute).
 	View string `json:"view,omitempty"`
 }
